@@ -134,20 +134,21 @@ func (m *Meta) FeatureList() []string {
 }
 
 type G struct {
-	rt      *rapid.T
-	p       Profile
-	meta    *Meta
-	structs []*StructDef
-	funcs   []*FuncDef
-	globals []*Var
-	scopes  [][]*Var
-	sb      *strings.Builder
-	id      int
-	budget  int
-	depth   int
-	inLoop  int
-	curFn   *FuncDef
-	libFns  []string // exported functions of the library package (multi-package profile)
+	rt            *rapid.T
+	p             Profile
+	meta          *Meta
+	structs       []*StructDef
+	funcs         []*FuncDef
+	globals       []*Var
+	scopes        [][]*Var
+	sb            *strings.Builder
+	id            int
+	budget        int
+	depth         int
+	inLoop        int
+	curFn         *FuncDef
+	libFns        []string // exported functions of the library package (multi-package profile)
+	shadowedNames map[string]bool
 }
 
 func (g *G) avoid(f string) bool { return g.p.Avoid != nil && g.p.Avoid[f] }
@@ -649,6 +650,41 @@ func (g *G) declStmt() {
 		g.show(v)
 		return
 	}
+	// redeclare a name of an enclosing scope (shadowing): the inner variable lives until the block ends
+	if len(g.scopes) >= 2 && rx.Chance(g.rt, "shadow", 1, 5) {
+		cur := map[string]bool{}
+		for _, v := range g.scopes[len(g.scopes)-1] {
+			cur[v.Name] = true
+		}
+		okv := func(v *Var) bool {
+			return !cur[v.Name] && !v.ReadOnly && (v.T.K == "int" || v.T.K == "string" || v.T.K == "bool" || v.T.K == "float64" || v.T.K == "uint8")
+		}
+		// prefer names that are already shadowed once: three and more live bindings of one name
+		o := g.pickVar("reshadowed", func(v *Var) bool { return okv(v) && g.shadowedNames[v.Name] })
+		if o == nil || rx.Chance(g.rt, "freshshadow", 1, 3) {
+			o = g.pickVar("shadowed", okv)
+		}
+		if o != nil {
+			if g.shadowedNames == nil {
+				g.shadowedNames = map[string]bool{}
+			}
+			if g.shadowedNames[o.Name] {
+				g.meta.feat("shadow3")
+			}
+			g.shadowedNames[o.Name] = true
+			g.meta.feat("shadow")
+			init := g.expr(o.T, 2) // evaluated before the new variable exists: may read the outer one
+			nv := &Var{Name: o.Name, T: o.T}
+			if o.T.K == "int" && !isConstExpr(init) || o.T.K == "string" || o.T.K == "bool" {
+				g.line("%s := %s", o.Name, init)
+			} else {
+				g.line("var %s %s = %s", o.Name, o.T, init)
+			}
+			g.declare(nv)
+			g.show(nv)
+			return
+		}
+	}
 	t := g.anyTy(true)
 	name := g.fresh("v")
 	v := &Var{Name: name, T: t}
@@ -914,7 +950,16 @@ func (g *G) forStmt() {
 		if v := g.pickVar("rangeslice", func(v *Var) bool { return v.T.K == "slice" && v.ReadOnly == false }); v != nil {
 			g.meta.feat("rangeslice")
 			k, e := g.fresh("k"), g.fresh("e")
-			// the ranged slice is evaluated once; the body may append to it without changing the iteration
+			// the ranged slice is evaluated once; the body may append to it without changing the iteration.
+			// slices grow in loops: range over at most the first four elements
+			orig := v
+			rsn := g.fresh("rs")
+			g.line("%s := %s", rsn, orig.Name)
+			g.line("if len(%s) > 4 {", rsn)
+			g.line("\t%s = %s[:4]", rsn, rsn)
+			g.line("}")
+			v = &Var{Name: rsn, T: orig.T, ReadOnly: true}
+			g.declare(v)
 			switch rx.Uniform(g.rt, 3, "rangeform") {
 			case 0:
 				g.line("for %s, %s := range %s {", k, e, v.Name)
@@ -951,6 +996,10 @@ func (g *G) forStmt() {
 		// the ranged string is held in a variable: `range (a + b)` with a parenthesised operand is read as a call by goatlang's parser
 		sv := g.fresh("rs")
 		g.line("%s := %s", sv, g.expr(tString, 1))
+		// strings grow in loops: bound the iteration count (cutting a rune in half is fine: range then yields U+FFFD)
+		g.line("if len(%s) > 4 {", sv)
+		g.line("\t%s = %s[:4]", sv, sv)
+		g.line("}")
 		g.line("for %s, %s := range %s {", k, e, sv)
 		g.push()
 		g.declare(&Var{Name: k, T: tInt, ReadOnly: true})
@@ -1171,17 +1220,28 @@ func (g *G) commaOkStmt() {
 	g.declStmt()
 }
 
+// showAfterBlock prints a local that was declared before the block that just closed: its binding (and value) must
+// be the outer one again.
+func (g *G) showAfterBlock() {
+	if v := g.pickVar("afterblock", func(v *Var) bool { return !v.Global && (g.shadowedNames[v.Name] || v.T.printable()) }); v != nil {
+		if sv := g.pickVar("afterblockshadowed", func(v *Var) bool { return !v.Global && g.shadowedNames[v.Name] }); sv != nil {
+			v = sv
+		}
+		g.show(v)
+	}
+}
+
 func (g *G) stmt() {
 	g.budget--
 	g.meta.Stmts++
 	w := []int{
-		4 + g.p.Expr,            // declaration
-		4 + g.p.Expr,            // assignment
-		g.p.Control,             // if
-		g.p.Control,             // for
-		g.p.Control,             // switch
-		2 + g.p.Struct,          // call
-		g.p.Container,           // comma-ok
+		4 + g.p.Expr,   // declaration
+		4 + g.p.Expr,   // assignment
+		g.p.Control,    // if
+		g.p.Control,    // for
+		g.p.Control,    // switch
+		2 + g.p.Struct, // call
+		g.p.Container,  // comma-ok
 	}
 	if g.depth >= 3 {
 		w[2], w[3], w[4] = w[2]/3, 0, w[4]/3
@@ -1193,10 +1253,13 @@ func (g *G) stmt() {
 		g.assignStmt()
 	case 2:
 		g.ifStmt()
+		g.showAfterBlock()
 	case 3:
 		g.forStmt()
+		g.showAfterBlock()
 	case 4:
 		g.switchStmt()
+		g.showAfterBlock()
 	case 5:
 		g.callStmt()
 	default:
